@@ -93,6 +93,10 @@ type Op struct {
 	ContinueOnFailure bool   `json:"continue_on_failure,omitempty"`
 	ContentType       string `json:"content_type,omitempty"`
 
+	// Expect: the answer this request would get on its own ("ok" or an API error code), when the
+	// generator can know it (elements kept on accounts no other client touches)
+	Expect string `json:"expect,omitempty"`
+
 	From    string   `json:"from,omitempty"` // import: source ledger whose export is fed in
 	Raw     *Request `json:"raw,omitempty"`
 	Chunked int      `json:"chunked,omitempty"`
